@@ -77,6 +77,26 @@ def precision_programs():
         return m
 
     p["module_params_f64"] = mk(mk_lin(), [((3,), F32)])
+    # producer x consumer compositions: a consumer plugin that builds its own constants must take the
+    # dtype from the operand even when the producer left the IR value untyped
+    producers = {
+        "outer": (lambda a, b: jnp.outer(a, b), 2), "matmul": (lambda a, b: a[:, None] @ b[None, :], 2), "einsum": (lambda a, b: jnp.einsum("i,j->ij", a, b), 2),
+        "concat": (lambda a, b: jnp.concatenate([a, b]), 2), "stack": (lambda a, b: jnp.stack([a, b]), 2), "where": (lambda a, b: jnp.where(a > b, a, b), 2),
+        "cumsum": (lambda a, b: jnp.cumsum(a * b), 2), "reshape": (lambda a, b: (a * b).reshape(3, 1), 2), "tile": (lambda a, b: jnp.tile(a + b, 2), 2),
+        "take": (lambda a, b: jnp.take(a * b, jnp.array([2, 0])), 2), "dot": (lambda a, b: jnp.dot(a, b), 2), "max": (lambda a, b: jnp.maximum(a, b), 2),
+        "sum": (lambda a, b: jnp.sum(a * b, keepdims=True), 2), "transpose": (lambda a, b: jnp.outer(a, b).T, 2), "squeeze": (lambda a, b: jnp.squeeze((a * b)[None]), 2),
+        "pad": (lambda a, b: jnp.pad(a * b, 1), 2), "sort": (lambda a, b: jnp.sort(a + b), 2), "clip": (lambda a, b: jnp.clip(a, -1.0, 1.0) * b, 2),
+    }
+    consumers = {
+        "cbrt": lambda v: jnp.cbrt(v), "rsqrt": lambda v: lax.rsqrt(jnp.abs(v) + 1.0), "expm1": lambda v: jnp.expm1(v), "log1p": lambda v: jnp.log1p(jnp.abs(v)),
+        "sigmoid": lambda v: jax.nn.sigmoid(v), "softplus": lambda v: jax.nn.softplus(v), "gelu": lambda v: jax.nn.gelu(v), "silu": lambda v: jax.nn.silu(v),
+        "exp2": lambda v: jnp.exp2(v), "reciprocal": lambda v: jnp.reciprocal(jnp.abs(v) + 1.0), "square_root3": lambda v: jnp.sqrt(jnp.abs(v)) * (1.0 / 3.0),
+        "leaky": lambda v: jax.nn.leaky_relu(v, 0.1), "elu": lambda v: jax.nn.elu(v), "selu": lambda v: jax.nn.selu(v), "log_sigmoid": lambda v: jax.nn.log_sigmoid(v),
+        "tanh_half": lambda v: jnp.tanh(v * 0.5), "pow_third": lambda v: jnp.power(jnp.abs(v) + 1.0, 1.0 / 3.0), "erf": lambda v: jax.scipy.special.erf(v) if hasattr(jax, "scipy") else v,
+    }
+    for pn, (pf, _) in producers.items():
+        for cn, cf in consumers.items():
+            p[f"comp/{pn}.{cn}"] = mk((lambda pf, cf: (lambda a, b: cf(pf(a, b))))(pf, cf), [((3,), F32), ((3,), F32)])
     try:
         from jax2onnx import onnx_function
 
@@ -93,7 +113,10 @@ def precision_programs():
 
 
 def list_jobs(tier):
-    ids = [f"P/{n}" for n in sorted(precision_programs())]
+    names = sorted(precision_programs())
+    comp = [n for n in names if n.startswith("comp/")]
+    names = [n for n in names if not n.startswith("comp/")] + (comp if tier == "thorough" else comp[::3])
+    ids = [f"P/{n}" for n in names]
     f64 = [i for i in corpus.registry_ids(include_f64=True) if "_f64#" in i]
     ids += f64 if tier == "thorough" else f64[:: max(1, len(f64) // 150)]
     a1 = families.ids("A1", tier)
